@@ -28,7 +28,7 @@ func TestVerifSelfCheck(t *testing.T) {
 		if !c.IsOnCurve(c.G) || c.G.Inf {
 			t.Fatalf("%s: generator not on curve", c.Name)
 		}
-		if !c.MulG(c.N).Inf {
+		if !c.Mul(c.N, c.G).Inf {
 			t.Fatalf("%s: n*G != O", c.Name)
 		}
 		if !c.Eq(c.MulG(new(big.Int).Sub(c.N, big.NewInt(1))), c.Neg(c.G)) {
@@ -40,9 +40,12 @@ func TestVerifSelfCheck(t *testing.T) {
 			a := new(big.Int).SetBytes(r.Bytes(40))
 			b := new(big.Int).SetBytes(r.Bytes(40))
 			l := c.Add(c.MulG(a), c.MulG(b))
-			rr := c.MulG(new(big.Int).Add(a, b))
+			rr := c.Mul(new(big.Int).Add(a, b), c.G)
 			if !c.Eq(l, rr) || !c.IsOnCurve(l) {
 				t.Fatalf("%s: aG+bG != (a+b)G in the reference", c.Name)
+			}
+			if !c.Eq(c.MulG(a), c.Mul(a, c.G)) {
+				t.Fatalf("%s: table-based MulG differs from double-and-add", c.Name)
 			}
 		}
 	}
@@ -98,7 +101,7 @@ func TestVerifSelfCheck(t *testing.T) {
 		if !c.IsOnCurve(c.G) || c.IsO(c.G) {
 			t.Fatalf("%s: generator not on curve", c.Name)
 		}
-		if !c.IsO(c.MulG(c.N)) {
+		if !c.IsO(c.Mul(c.N, c.G)) {
 			t.Fatalf("%s: n*G != O", c.Name)
 		}
 		r := lib.NewRng("c13/self/"+c.Name, 0)
@@ -107,8 +110,11 @@ func TestVerifSelfCheck(t *testing.T) {
 			a := new(big.Int).SetBytes(r.Bytes(40))
 			b := new(big.Int).SetBytes(r.Bytes(40))
 			l := c.MustAdd(c.MulG(a), c.MulG(b))
-			if !c.Eq(l, c.MulG(new(big.Int).Add(a, b))) || !c.IsOnCurve(l) {
+			if !c.Eq(l, c.Mul(new(big.Int).Add(a, b), c.G)) || !c.IsOnCurve(l) {
 				t.Fatalf("%s: aG+bG != (a+b)G in the reference", c.Name)
+			}
+			if !c.Eq(c.MulG(a), c.Mul(a, c.G)) {
+				t.Fatalf("%s: table-based MulG differs from double-and-add", c.Name)
 			}
 			if c.Name == "Ed448-twist" {
 				continue // a=-1 is a non-square mod p448: the law is complete only on odd-order points
